@@ -919,9 +919,9 @@ func closeDrainNotifyProbe(m *meta) {
 		return
 	}
 	time.Sleep(20 * time.Millisecond) // the free-running notifier takes its closeCh branch and exits
-	stepUntil(2, -100)               // P reserves, publishes, returns nil: accepted during shutdown
-	stepUntil(1000, -100)            // the worker's final drain applies Set(3): the LRU entry is evicted
-	stepUntil(3, -100)               // Close returns
+	stepUntil(2, -100)                // P reserves, publishes, returns nil: accepted during shutdown
+	stepUntil(1000, -100)             // the worker's final drain applies Set(3): the LRU entry is evicted
+	stepUntil(3, -100)                // Close returns
 	kioshun.VerifSchedRelease()
 	time.Sleep(5 * time.Millisecond)
 	mu.Lock()
